@@ -68,7 +68,7 @@ VisitWhile(tree, tag, body, step, d, bs) ==
   <<BackEdges(r2[1], ps, h), {h}>>
 Visit(tree, n, d, bs) ==
   LET nd == tree[n] IN
-  CASE nd.k = "s" -> <<Append2(bs, [k |-> "s", tag |-> nd.id, t |-> 0, f |-> 0]), {}>>
+  CASE nd.k \in {"s", "n"} -> <<Append2(bs, [k |-> "s", tag |-> nd.id, t |-> 0, f |-> 0]), {}>>
     [] nd.k = "r" -> <<Append2(bs, [k |-> "ret", tag |-> nd.id, t |-> 0, f |-> 0]), {}>>
     [] nd.k = "blk" -> VisitList(tree, nd.kids, 1, d, bs, {})
     [] nd.k = "wh" -> VisitWhile(tree, nd.id, nd.t, 0, d, bs)
